@@ -80,6 +80,10 @@ def gen_cases(tier, seed):
     for d in base:
         cases.append(dict(kind='split', shape=d))
         cases.append(dict(kind='decompose', shape=d))
+    for d in [x for x in K.curve_shapes(tier) if len(x['kvs'][0]) > 2 * (x['degrees'][0] + 1) and x['degrees'][0] >= 2][:6]:
+        cases.append(dict(kind='split', shape=d, near_knot=True))
+    for d in [x for x in K.surface_shapes(tier) if all(len(kv) > 2 * (p + 1) for kv, p in zip(x['kvs'], x['degrees']))][:3]:
+        cases.append(dict(kind='split', shape=d, near_knot=True))
     # shapes that keep their own knot range, reached through edits from another range (the old domain end is an interior
     # knot of the new domain): the domain used by the end-of-domain rejection must be the current one
     for d in K.nonnormalised_shapes(tier):
@@ -148,6 +152,10 @@ def _split_case(case, ctx):
         p, kv = desc['degrees'][a], kvs0[a]
         n = len(kv) - p - 1
         menu = K.insertion_params(p, kv)
+        if case.get('near_knot'):
+            # split parameters closer to an interior knot than the library's multiplicity tolerance (1e-7)
+            interior = sorted(set(k for k in kv if kv[p] < k < kv[n]))
+            menu = [(t + d, 0) for t in interior for d in (-1e-9, 1e-9, -5e-8)]
         if 'params' in case:
             menu = [(u, K.fmult(kv, u)) for u in case['params']]
         fn = _split_fn(name)
@@ -156,8 +164,9 @@ def _split_case(case, ctx):
                 continue
             obj = S.build(desc, ctx.seed)
             before = S.snapshot(obj)
+            near = [t for t in kv if 0.0 < abs(u - t) < 1e-7]
             feats = dict(_base_feats(desc), fn=name, direction=K.DIRN[a], degree=p, mult=s, at_existing_knot=s > 0,
-                         full_multiplicity=s == p)
+                         full_multiplicity=s == p, near_knot=('below' if near and u < near[0] else 'above') if near else None)
             rc = dict(kind='split', shape=desc, fn=name, params=[u])
             try:
                 pieces = fn(obj, u)
@@ -176,7 +185,7 @@ def _split_case(case, ctx):
                 _piece_geometry(ctx, 'C07.split.geometry', pc, d_orig, cell, scale, rc, dict(feats, piece=i))
             ctx.outcome((name, u, tuple(tuple(K.obj_sizes(pc)) for pc in pieces)))
         # rejection at both ends of the domain
-        if 'params' not in case or any(u in (kv[p], kv[n]) for u in case['params']):
+        if not case.get('near_knot') and ('params' not in case or any(u in (kv[p], kv[n]) for u in case['params'])):
             for u in (kv[p], kv[n]):
                 if 'params' in case and u not in case['params']:
                     continue
